@@ -137,6 +137,9 @@ pub struct KnownFinding {
     /// none of these may occur in the failing statement's SQL
     #[serde(default)]
     pub sql_excludes: Vec<String>,
+    /// substring -> minimum number of occurrences in the failing statement
+    #[serde(default)]
+    pub sql_min_count: BTreeMap<String, usize>,
     /// match only violations that went through the minimiser
     #[serde(default)]
     pub minimized_only: bool,
@@ -164,6 +167,9 @@ pub fn match_known<'a>(known: &'a [KnownFinding], v: &Violation, minimized: bool
         if !k.sql_contains.iter().all(|c| sql.contains(c.as_str())) || k.sql_excludes.iter().any(|c| sql.contains(c.as_str())) {
             return false;
         }
+        if !k.sql_min_count.iter().all(|(c, n)| sql.matches(c.as_str()).count() >= *n) {
+            return false;
+        }
         if !k.script_contains.iter().all(|c| script.iter().any(|st| st.contains(c.as_str()))) {
             return false;
         }
@@ -171,7 +177,7 @@ pub fn match_known<'a>(known: &'a [KnownFinding], v: &Violation, minimized: bool
             && k.dev.is_none()
             && k.properties.iter().any(|p| p == &v.property)
             && k.class == v.class
-            && (!k.contains.is_empty() || !k.any_of.is_empty() || !k.sql_contains.is_empty())
+            && (!k.contains.is_empty() || !k.any_of.is_empty() || !k.sql_contains.is_empty() || !k.sql_min_count.is_empty())
             && k.contains.iter().all(|c| hay.contains(c.as_str()))
             && (k.any_of.is_empty() || k.any_of.iter().any(|c| hay.contains(c.as_str())))
     })
